@@ -1498,6 +1498,36 @@ def h_md5(ex, st, args, kwargs, node):
 STUB_CLASSES['$hash'] = {
     'hexdigest': lambda ex, st, v, args, kwargs, node: [(st, VStr(md5hex(z3.Concat(st.heap[v.ref]['algo'].t, z3.StringVal(':'), st.heap[v.ref]['data'].t))))],
 }
+
+
+@extern('datetime.timedelta')
+def dt_timedelta(ex, st, args, kwargs, node):
+    """datetime.timedelta(days, seconds, microseconds, milliseconds, minutes, hours, weeks): a duration; only its length in
+    seconds is modelled (mathematical real - timedelta itself rounds to microseconds)"""
+    names = ['days', 'seconds', 'microseconds', 'milliseconds', 'minutes', 'hours', 'weeks']
+    factor = {'days': 86400, 'seconds': 1, 'microseconds': z3.RealVal('1/1000000'), 'milliseconds': z3.RealVal('1/1000'),
+              'minutes': 60, 'hours': 3600, 'weeks': 604800}
+    vals = dict(zip(names, args))
+    for k, v in kwargs.items():
+        if k not in factor or k in vals:
+            raise Unsupported('timedelta(%s=)' % k)
+        vals[k] = v
+    total = z3.RealVal(0)
+    for k, v in vals.items():
+        if not isinstance(v, (VInt, VReal)):
+            raise Unsupported('timedelta(%s=<%s>)' % (k, v.shape))
+        total = total + to_real(v) * factor[k]
+    obj = ex.new_ref(st, '$timedelta')
+    st.heap[obj.ref]['secs'] = VReal(z3.simplify(total))
+    ex.used_stubs.add('datetime.timedelta: only total_seconds() is modelled (exact real, no microsecond rounding, no OverflowError beyond 999999999 days)')
+    return [(st, obj)]
+
+
+STUB_CLASSES['$timedelta'] = {
+    'total_seconds': lambda ex, st, v, args, kwargs, node: [(st, st.heap[v.ref]['secs'])],
+}
+
+
 EXTERNS['os.O_RDONLY'] = VInt(0)
 EXTERNS['os.O_WRONLY'] = VInt(1)
 EXTERNS['os.O_RDWR'] = VInt(2)
